@@ -1,8 +1,10 @@
 CONSTANT MaxMsgs = 3
+CONSTANT Ordered = TRUE
 SPECIFICATION Spec
 INVARIANT InOrderOnce
 INVARIANT NoDuplicatePublish
 INVARIANT QuiescentComplete
 INVARIANT Causal
 INVARIANT ReplyAtLineStart
+INVARIANT FinalPublishFresh
 PROPERTY EventuallyQuiescent
